@@ -221,7 +221,10 @@ func areaParser(c *Ctx) {
 	r := c.Rng
 	bs := 1024
 	boundary := func(n int) []int {
-		l := []int{0, 1, bs - 1, bs, bs + 1, 2*bs - 1, 2 * bs, 2*bs + 1, n - 1, n, n + 1}
+		// far targets: positions whose low 32 (or 31) bits fall inside a buffered window must not be
+		// mistaken for in-window positions (positions are int64 in the code, unbounded in the model)
+		l := []int{0, 1, bs - 1, bs, bs + 1, 2*bs - 1, 2 * bs, 2*bs + 1, n - 1, n, n + 1,
+			1 << 31, 1<<32 - 1, 1 << 32, 1<<32 + 1, 1<<32 + 8, 1<<32 + bs, 1<<32 + n, 1 << 40}
 		out := l[:0]
 		for _, x := range l {
 			if x >= 0 {
@@ -326,7 +329,12 @@ func areaParser(c *Ctx) {
 		for j := 0; j < nops; j++ {
 			switch r.Intn(8) {
 			case 0:
-				ops = append(ops, fmt.Sprintf("seek:%d", r.Intn(n+3)))
+				if r.Chance(1, 12) {
+					// far seek whose low 32 bits are a small offset
+					ops = append(ops, fmt.Sprintf("seek:%d", (1+r.Intn(3))<<32+r.Intn(n+3)))
+				} else {
+					ops = append(ops, fmt.Sprintf("seek:%d", r.Intn(n+3)))
+				}
 			case 1:
 				ops = append(ops, fmt.Sprintf("bytes:%d", r.Intn(bs+1)))
 			case 2:
